@@ -335,27 +335,44 @@ def _mod(cls):
 
 class Mate:
     """the other gear of a mating as seen through its public properties"""
+    _pycv_instance_of = ("RotatingObject", "MechanicalObject", "GearBase", "SpurGear", "HelicalGear", "WormGear", "WormWheel")
 
     def __init__(self, **kw):
         self.__dict__.update(kw)
         self.name = kw.get("name", "mate")
 
 
+def _register_mate():
+    import gearpy.mechanical_objects as MO          # native replays: the real setters use the real isinstance
+    for base in (MO.RotatingObject, MO.GearBase, MO.WormGear):
+        base.register(Mate)
+
+
+_register_mate()
+
+
+def _set(obj, attr, value):
+    """state is prepared through the PUBLIC setters (nothing here depends on private attribute names)"""
+    st, r = H.call(setattr, obj, attr, value)
+    if st != "ok":
+        raise sym.EngineError(f"harness: {type(obj).__name__}.{attr} = {value!r} was rejected: {r!r}")
+
+
 def set_role(g, cls, role, mate):
     R_ = roles()[role]
-    owner = "_WormGear" if cls == "WormGear" else "_GearBase"
-    g.__dict__[f"{owner}__mating_role"] = R_
+    if R_ is not None:
+        _set(g, "mating_role", R_)
     if role == "master":
-        g.__dict__[f"{owner}__drives"] = mate
+        _set(g, "drives", mate)
     elif role == "slave":
-        g.__dict__[f"{owner}__driven_by"] = mate
+        _set(g, "driven_by", mate)
 
 
 def set_torques(c, g):
     Td = H.mkq(c, "Torque", "Td")
     Tl = H.mkq(c, "Torque", "Tl")
-    g.__dict__["_RotatingObject__driving_torque"] = Td
-    g.__dict__["_RotatingObject__load_torque"] = Tl
+    _set(g, "driving_torque", Td)
+    _set(g, "load_torque", Tl)
     return Td, Tl
 
 
@@ -398,7 +415,7 @@ def job_bending(cls, role):
             return
         Ft = H.mkq(c, "Force", "Ft")
         c.assume(L.ge(H.SI(Ft), 0))            # post of compute_tangential_force: |T| / (d/2)
-        g.__dict__["_GearBase__tangential_force"] = Ft
+        _set(g, "tangential_force", Ft)
         mate = Mate()
         if cls == "WormWheel":
             mate.reference_diameter = H.mkq(c, "Length", "worm_d")
@@ -463,7 +480,7 @@ def job_contact(cls, role, mate_module, mate_elastic):
             return
         Ft = H.mkq(c, "Force", "Ft")
         c.assume(L.ge(H.SI(Ft), 0))
-        g.__dict__["_GearBase__tangential_force"] = Ft
+        _set(g, "tangential_force", Ft)
         mate = Mate(module=H.mkq(c, "Length", "mate_m") if mate_module else None,
                     elastic_modulus=H.mkq(c, "Stress", "mate_E") if mate_elastic else None)
         if mate_elastic:
@@ -572,7 +589,7 @@ def job_worm_tables():
         import gearpy.mechanical_objects.mechanical_object_base as B
         fmax = getattr(B, "_real_max_helix", B.worm_gear_and_wheel_maximum_helix_angle_function)
         flew = getattr(B, "_real_wheel_lewis", B.worm_wheel_lewis_factor_function)
-        table = getattr(GU.Angle, "_AngularPosition__UNITS")
+        table = spec.SI_TABLE["AngularPosition"]          # the unit symbols of an angle (L0 table; the code's table is checked against it in contracts/units.py)
         for deg in PRESSURE_ANGLES_DEG:
             ref = GU.Angle(float(deg), "deg")
             for u in table:
